@@ -33,7 +33,8 @@ TECHNIQUE = ("exhaustive enumeration of all model expressions over a component a
              "evaluated alone, mapped positionally through info.composition")
 RULE = ("every ordered assignment of components to every expression shape; per program every combination of <=D "
         "dimensions off default (per part: values, dispersity, magnetism / M0=0 with angles, zero intensity, empty mesh; "
-        "global: 2-D, spin state, and for >=3 leaves up to three dispersed parameters in every part at once); "
+        "per sum part: scale 0 and negative; global: 2-D, spin state, and for >=3 leaves up to three dispersed parameters in every part at once); "
+        "after the block, for every part and every reachable refusal reason: a refused call then an ordinary one on the same kernel; "
         "non-trivial = >=2 parts whose intensities alone are non-constant in q and pairwise distinct")
 ASSUMPTIONS = [
     "each leaf evaluated alone by call_kernel (plain models: C01/C06; P@S leaves: C07) is the reference I_k",
@@ -48,6 +49,10 @@ COMPONENTS_T = ["sphere", "cylinder", "core_multi_shell", "lamellar", "guinier",
 COMPONENTS_4Q = ["cylinder", "power_law", "sphere@hardsphere"]
 COMPONENTS_4T = ["sphere", "cylinder", "power_law", "sphere@hardsphere"]
 SHAPES = ["{0}+{1}", "{0}*{1}", "{0}+{1}+{2}", "{0}*{1}*{2}", "{0}+{1}*{2}", "{0}*{1}+{2}"]
+# programs with a pure-Python part that HAS SLD parameters (its magnetism is refused), at every position
+REFUSAL_PROGRAMS = ["teubner_strey+sphere", "sphere+teubner_strey", "sphere+teubner_strey+cylinder",
+                    "teubner_strey*sphere", "sphere*teubner_strey*cylinder", "sphere+cylinder*teubner_strey",
+                    "core_multi_shell+sphere+sphere", "sphere+core_multi_shell+sphere", "sphere+sphere+core_multi_shell"]
 SHAPES4 = ["{0}+{1}+{2}+{3}", "{0}*{1}+{2}*{3}"]
 BOUNDS = {
     "quick": {"components": COMPONENTS_Q, "shapes": SHAPES, "D": 2, "D_2leaf": 3,
@@ -94,6 +99,8 @@ def cases(ctx):
         k = shape.count("{")
         for combo in itertools.product(comps, repeat=k):
             out.append({"expr": shape.format(*combo), "D": 3 if k == 2 else D})
+    for e in REFUSAL_PROGRAMS:
+        out.append({"expr": e, "D": 1})
     for shape in SHAPES4:
         for combo in itertools.product(comps4, repeat=4):
             out.append({"expr": shape.format(*combo), "D": 2})
@@ -247,6 +254,39 @@ def sum_scale_names(node, out=None):
     return out
 
 
+def product_scale_names(node, out=None):
+    """scale parameters of sum parts that are themselves products"""
+    out = [] if out is None else out
+    if "op" in node:
+        for scale, ch in node["children"]:
+            if scale is not None and "op" in ch and ch["op"] == "*":
+                out.append(scale)
+            product_scale_names(ch, out)
+    return out
+
+
+def refusals(name, dim):
+    """[(reason, own-parameter overrides)] that make the library refuse an evaluation because of this leaf"""
+    info = build.info(name)
+    out = []
+    active = info.parameters.pd_1d if dim == "1d" else info.parameters.pd_2d
+    names = [p.name for p in info.parameters.call_parameters if p.name in active]
+    comp = info.composition
+    limit = comp[1][0].parameters.max_pd if comp else info.parameters.max_pd       # P@S: the limit of P
+    if len(names) > limit:
+        over = {}
+        for nm in names[:limit + 1]:
+            over.update({nm + "_pd": 0.05 if nm not in ("theta", "phi", "psi") else 4.0, nm + "_pd_n": 2,
+                         nm + "_pd_type": "gaussian"})
+        out.append(("too-many-dispersed", over))
+    if comp and comp[0] == "product" and comp[1][0].have_Fq and dim == "2d":
+        out.append(("beta-2d", {"structure_factor_mode": 1}))
+    slds = [p.name for p in info.parameters.call_parameters if p.type == "sld"]
+    if slds and dim == "2d" and any(is_py(b) for b in build.base_names(name)):
+        out.append(("python-magnetism", {slds[0] + "_M0": 2.0, slds[0] + "_mtheta": 35.0}))
+    return out
+
+
 def has_product_with(node, pred):
     """does a product node directly contain a leaf satisfying pred?"""
     if "op" not in node:
@@ -265,7 +305,8 @@ def run_case(case, ctx):
     leaves = []
     root = tree(info, None, leaves)
     scales = sum_scale_names(root)
-    sum_scales = {nm: 0.7 + 0.45 * j for j, nm in enumerate(scales)}
+    base_scales = {nm: 0.7 + 0.45 * j for j, nm in enumerate(scales)}
+    product_scales = product_scale_names(root)
     known = set(info.parameters.defaults)
     nleaf = len(leaves)
 
@@ -280,10 +321,16 @@ def run_case(case, ctx):
             dims.append(("pd:%d" % k, None, pd[:1] + (["theta"] if oriented else [])))
         if slds and not is_py(name):
             dims.append(("mag:%d" % k, 0, [1, 2]))      # 2 = zero amplitude with non-zero angles: not magnetic
-        if len(slds) >= 2:
+        if len(slds) >= 2 and any("solvent" in s_ for s_ in slds):
             dims.append(("zero:%d" % k, 0, [1]))
         if pd:
             dims.append(("empty:%d" % k, 0, [1]))       # distribution wholly outside the limits: empty mesh
+    for j, nm in enumerate(scales):
+        # per-part scale of a sum (also of a nested product): switched off, and negative
+        alts = [0.0, -0.6 - 0.1 * j]
+        # both for two-leaf programs of the thorough tier; otherwise one of the two per part, alternating with the
+        # part index and rotated by the seed (keeps the thorough tier inside its time budget)
+        dims.append(("scale:" + nm, None, alts if (nleaf == 2 and not ctx.quick) else [ctx.rot(alts, j)]))
     dims.append(("dim", "1d", ["2d"]))
     if nleaf >= 3:
         # up to three dispersed size parameters (2 points each) in EVERY part at once: the mixture's total number of
@@ -295,7 +342,12 @@ def run_case(case, ctx):
     py_leaves = [lf["leaf"] for lf in leaves if any(is_py(b) for b in build.base_names(lf["leaf"]))]
     fk0 = {"model": expr}
 
-    for ndev, cfg in deviations(dims, case["D"]):
+    def one(ndev, cfg, kernel=None, prior="", extra=None, expect_refusal=False):
+        """judge one configuration (on a given kernel object); with expect_refusal only report whether it is refused"""
+        sum_scales = dict(base_scales)
+        for nm in scales:
+            if cfg.get("scale:" + nm) is not None:
+                sum_scales[nm] = cfg["scale:" + nm]
         dim = cfg["dim"]
         sub = {k: v for k, v in cfg.items() if v not in (0, None, "1d")}
         br = []
@@ -349,6 +401,7 @@ def run_case(case, ctx):
                 magnetic_leaf.append(k)
             if slds:
                 sld_leaf.append(k)
+            own.update((extra or {}).get(k, {}))
             own_all.append(own)
             for nm, v in own.items():
                 cn = comb_name(lf, nm)
@@ -369,11 +422,25 @@ def run_case(case, ctx):
                 if nleaf >= 4:
                     br.append("total-dispersity-loops>=6-4leaf")
         shown = {k: v for k, v in pars.items() if info.parameters.defaults.get(k) != v}
-        desc = "call_kernel(%s %s kernel q=%s, pars=%s)" % (expr, dim, Q1 if dim == "1d" else Q2, shown)
+        desc = prior + "call_kernel(%s %s kernel q=%s, pars=%s)" % (expr, dim, Q1 if dim == "1d" else Q2, shown)
+        if expect_refusal:
+            try:
+                call_kernel(kernel, dict(pars))
+            except (ValueError, NotImplementedError) as exc:
+                return "%s: %s" % (type(exc).__name__, exc)
+            return None
+        if any(v == 0.0 for v in sum_scales.values()):
+            br.append("zero-sum-scale")
+        if any(v < 0.0 for v in sum_scales.values()):
+            br.append("negative-sum-scale")
+            if any(sum_scales[nm] < 0.0 for nm in product_scales):
+                br.append("negative-scale-on-nested-product")
+        if prior:
+            br.append("after-refusal")
 
         # ---- implementation
         try:
-            impl = np.array(call_kernel(kernels[dim], dict(pars)), float)
+            impl = np.array(call_kernel(kernel if kernel is not None else kernels[dim], dict(pars)), float)
         except NotImplementedError as exc:
             if magnetic_leaf and py_leaves:
                 r.fail("%s refused: %r (part(s) %s are pure Python and have no magnetic parameters; the magnetic part is %s)"
@@ -381,10 +448,10 @@ def run_case(case, ctx):
                        dict(fk0, clause="python-part-magnetism-refused"), sub, branches=["python-part-refused"])
             else:
                 r.fail("%s raised %r" % (desc, exc), dict(fk0, clause="raises"), sub, branches=br)
-            continue
+            return None
         except Exception as exc:  # noqa
             r.fail("%s raised %r" % (desc, exc), dict(fk0, clause="raises"), sub, branches=br)
-            continue
+            return None
 
         # ---- oracle: every leaf alone, de-prefixed, scale 1, background 0
         leaf_vals = []
@@ -427,7 +494,7 @@ def run_case(case, ctx):
                 r.sample({"call": desc, "impl": [float(v) for v in impl], "reference": [float(v) for v in ref],
                           "parts_alone": {"%d:%s" % (lf["k"], lf["leaf"]): [float(v) for v in leaf_vals[lf["k"]]]
                                           for lf in leaves}})
-            continue
+            return None
         # ---- classify the disagreement
         parts_txt = "; ".join("part %d %s alone(%s)=%s" % (lf["k"], lf["leaf"],
                               {n: v for n, v in own_all[lf["k"]].items()
@@ -460,6 +527,27 @@ def run_case(case, ctx):
                   "scale*prod_k I_k+background" if clause.startswith("product") else "stated combination",
                   parts_txt, sum_scales),
                dict(fk0, clause=clause), sub, nt=nt, trans=1 + nleaf, branches=br)
+
+    for ndev, cfg in deviations(dims, case["D"]):
+        one(ndev, cfg)
+
+    # ---- re-use of one kernel object after a refused evaluation: the refusal is raised while the mixture is
+    # preparing / evaluating the part at each position; the next ordinary evaluation must be unaffected
+    default = {d[0]: d[1] for d in dims}
+    for dim in ("1d", "2d"):
+        for lf in leaves:
+            for reason, own_extra in refusals(lf["leaf"], dim):
+                kernel = model.make_kernel(_q(dim))
+                cfg = dict(default, dim=dim)
+                why = one(0, cfg, kernel=kernel, extra={lf["k"]: own_extra}, expect_refusal=True)
+                if why is None:
+                    r.branch("refusal-not-raised:" + reason)
+                    continue
+                pos = "first" if lf["k"] == 0 else "last" if lf["k"] == nleaf - 1 else "middle"
+                r.branch("after-refusal:" + reason)
+                r.branch("after-refusal:part-" + pos)
+                one(0, cfg, kernel=kernel,
+                    prior="same kernel object, previous call refused (%s at part %d %s: %s); now " % (reason, lf["k"], lf["leaf"], why[:80]))
     r.branch("shape:" + "".join(ch for ch in expr if ch in "+*"))
     if "@" in expr:
         r.branch("P@S-leaf")
@@ -481,6 +569,14 @@ def finish(ctx, report):
     report.require("zero-part-in-product", 50, "exactly-zero part inside a product")
     report.require("magnetic-part-2d", 50, "magnetic part, 2-D")
     report.require("part-jitter-2d", 20, "orientation dispersity of an oriented part, 2-D")
+    report.require("negative-sum-scale", 200, "negative per-part scale in a sum")
+    report.require("zero-sum-scale", 200, "zero per-part scale in a sum")
+    report.require("negative-scale-on-nested-product", 50, "negative scale on a product nested in a sum")
+    report.require("after-refusal", 100, "ordinary evaluation on a kernel whose previous evaluation was refused")
+    for reason in ("too-many-dispersed", "beta-2d", "python-magnetism"):
+        report.require("after-refusal:" + reason, 5, "refusal reason " + reason)
+    for pos in ("first", "middle", "last"):
+        report.require("after-refusal:part-" + pos, 10, "refusal raised for the %s part" % pos)
     report.require("empty-mesh-part", 100, "a part whose distribution lies wholly outside the limits (contributes exactly 0)")
     report.require("empty-mesh-part-beside-nonzero-part", 100, "empty-mesh part next to parts that still contribute")
     report.require("zero-amplitude-angles", 100, "part with M0 = 0 but non-zero magnetic angles")
